@@ -71,7 +71,11 @@ Definition verify_auth_inclusion (mtp : option rproof) (s : istate) (auth : clai
       end
   end.
 
-(* validateAuthClaimRevocation; dereferencing a nil *CredentialStatus panics *)
+(* validateAuthClaimRevocation; dereferencing a nil *CredentialStatus panics.
+   Only the entry itself counts: its nonce is compared with the auth claim's and it is the entry
+   that is validated; a nested `statusIssuer` member is never a fallback (cred_status does not
+   even carry it: it is only passed through to the resolver), so an entry that cannot be
+   resolved or validated makes the verification fail whatever `statusIssuer` says. *)
 Definition validate_auth_revocation (st : raw_status) (auth : option claim) : res unit :=
   csp <- coerce_status st ;;
   a <- of_option auth EAuthClaim ;;
